@@ -29,6 +29,12 @@ CONTENTS = {
 }
 MD5 = {k: ref.md5(v) for k, v in CONTENTS.items()}
 
+# bulk alphabet: more tiny, distinct objects than any paging / batching constant of the code base
+# (999 SQL parameters, 1000-object listing pages), and not a multiple of a power of two or of 1000
+BULK_N = 1300
+BULK = {f"bulk{i}": b"bulk-%d" % i for i in range(BULK_N)}
+BULK_MD5 = {k: ref.md5(v) for k, v in BULK.items()}
+
 
 def files_of(spec):
     """spec: list of [relpath, content-name] or [relpath, content-name, exec]."""
